@@ -10,7 +10,8 @@ class Adapter(object):
         from miasm.core.utils import BoundedDict
         h = self.H()
         h.log = []
-        h.obj = BoundedDict(acfg["max"], acfg.get("min"), delete_cb=h.log.append)
+        h.obj = BoundedDict(acfg["max"], acfg.get("min"),
+                            delete_cb=h.log.append if acfg.get("cb", True) else None)
         return h
 
     def apply(self, h, o):
@@ -65,8 +66,8 @@ def gen_op(rng, h, acfg):
     return {"op": "Destroy"}
 
 
-def consts(keys, vals, mx, mn):
-    return {"Keys": core.tla_set(core.tla_str(k) for k in keys),
+def consts(keys, vals, mx, mn, cb=True):
+    return {"HasCb": "TRUE" if cb else "FALSE","Keys": core.tla_set(core.tla_str(k) for k in keys),
             "Vals": core.tla_set(core.tla_str(v) for v in vals),
             "Max": str(mx), "Min": str(mn)}
 
@@ -79,7 +80,7 @@ def run(ctx):
     ad = Adapter()
     keys = ["a", "b", "c", "d"]
     if ctx.quick:
-        insts = [(3, None, 5), (3, 2, 5), (4, 2, 5), (5, 2, 5)]
+        insts = [(3, None, 5), (3, 2, 5), (3, 3, 5), (4, 2, 5), (5, 2, 5)]
     else:
         insts = [(3, None, 7), (3, 2, 7), (3, 3, 6), (4, None, 7), (4, 2, 7), (4, 3, 6), (5, 2, 7), (6, None, 6), (6, 3, 6)]
     for mx, mn, depth in insts:
@@ -87,17 +88,23 @@ def run(ctx):
         sm.gen_replay(ctx, "BoundedDict", consts(keys, ["v1", "v2"], mx, eff), depth, ad,
                       acfg={"max": mx, "min": mn}, invariants=INV, properties=PROPS,
                       label="gen_%d_%s" % (mx, mn))
+    # no deletion callback configured: same contract, nothing logged
+    for mx, mn, depth in ([(3, 2, 5), (4, None, 5)] if ctx.quick else [(3, 2, 7), (4, None, 7), (4, 4, 6)]):
+        eff = mn if mn else mx // 3
+        sm.gen_replay(ctx, "BoundedDict", consts(keys, ["v1", "v2"], mx, eff, cb=False), depth, ad,
+                      acfg={"max": mx, "min": mn, "cb": False}, invariants=INV, properties=PROPS,
+                      label="gen_nocb_%d_%s" % (mx, mn))
     # code -> spec: random long histories, larger pools
     big = ["k%d" % i for i in range(12)]
     ntr = 150 if ctx.quick else 1500
-    for mx, mn in [(4, None), (7, 3), (9, None), (12, 5)]:
+    for mx, mn, cb in [(4, None, True), (7, 3, True), (9, None, False), (12, 5, True), (6, 6, True)]:
         eff = mn if mn else mx // 3
-        acfg = {"max": mx, "min": mn, "keys": big}
+        acfg = {"max": mx, "min": mn, "keys": big, "cb": cb}
         traces = sm.record_traces(ad, acfg, gen_op, ntr, 40, ctx.rng)
         for tr in traces:
             for e in tr:
                 e["st"] = to_trace_state(e["st"])
-        c = consts(big, ["v1", "v2", "v3"], mx, eff)
+        c = consts(big, ["v1", "v2", "v3"], mx, eff, cb)
         sm.trace_validate(ctx, "BoundedDict", c, traces, label="trace_%d" % mx, tdo="TDo(e)")
         if mx == 7:
             def corrupt(ts):
